@@ -20,6 +20,11 @@ def resolve_prop(cmd, seed, rule, level_text, extra_dirs=(), assumptions=()):
                          "histories) + vm_compute correspondence against the real code on generated histories + relational oracle on the code"}
 
 
+BATCH_NOTE = ("Trusted: Coq kernel + vm_compute; harness (mutation engine, view builder that decodes CAS content with the library's own "
+              "gunzip/JSON decoders and per-entry parser verdicts but none of the provider logic); go2v. Modelled not verified: "
+              "encoding/json struct decoding, gzip, the mock CAS, per-entry parser verdicts (suffix data, signed data, delta validity - "
+              "C10/C18), absence of Go panics is observed (recover) not proved.")
+
 NOT_APPLICABLE = []
 HOOK_COMMITS = ["339701f"]
 
@@ -58,6 +63,59 @@ PROPS = {
         "optionally with an escape operation; must terminate (20 s bound) and equal the model; plus Parse(batch=false) over every pairing "
         "of revealed key and next commitments x both hash algorithms for update, recover and create",
         "Theorems: intake acceptance implies next commitment is not that of the revealed key and create/recover commitments differ (and the rule rejects nothing else); an applied operation never commits to the commitment it consumes nor to one consumed earlier in the chain; consumed commitments are pairwise distinct; resolution terminates. Cyclic histories and all key pairings through the real parser."),
+    "C13": {
+        "cmd": "c13", "seed": 113, "gentie": 0, "coq_dirs": ["Batch", "Corr/Batch", "Props/C13"],
+        "rule": "batches of 1-12 client-built operations over 6 DIDs (all four types, anchor origins of every JSON kind, repeated "
+                "suffixes frequent, expired operations via the time validator; shapes: single, deactivate-only, update-only, maximum "
+                "size, random mix) through the real OperationHandler over a CAS and back through the real OperationProvider; oracle on "
+                "the implementation: read-back = first non-expired per suffix, ordered by type, JSON-equal requests, anchor origin, "
+                "count, accounting; model: prepare + get_txn_operations on the same queue content; non-trivial = more than one operation",
+        "trusted_base": ["modelled, not verified: JSON (de)serialisation of the files, gzip, CAS"],
+        "assumptions": ["queued operations passed intake (valid multihash lengths)", "files within the protocol's size limits"],
+        "level_text": "Round-trip theorem for every queue content: get_txn_operations (prepare ops) returns exactly the included operations "
+                      "(first non-expired per suffix) with all fields, ordered create/recover/update/deactivate; anchor count; accounting "
+                      "permutation. Proved by list induction over positional zips; model tied to handler and provider by differential runs "
+                      "of the real round trip.",
+        "level_note": BATCH_NOTE,
+        "technique": "Coq proof (round trip of positional file layout) + vm_compute correspondence on generated batches through the real "
+                     "handler and provider + read-back oracle on the implementation",
+    },
+    "C14": {
+        "cmd": "c14", "seed": 114, "gentie": 0, "coq_dirs": ["Batch", "Corr/Batch", "GenTie/Provider", "Props/C14"],
+        "rule": "valid file sets written by the real handler, then 0-3 count-consistent mutations out of ~140 (drop/duplicate/null/swap/"
+                "empty entries of every list, missing/dangling/superfluous/ill-typed references, operations null/ill-typed, transport: "
+                "uncompressed, padded beyond raw or decompressed limit and exactly at it, flipped bytes, read failure, over-long and "
+                "maximal URIs, retargeted/empty/over-long/maximal suffixes and reveal values, bad suffix data, anchor string variants); "
+                "provider run under recover; outcome (error or operation list) compared with the model over the decoded view; "
+                "non-trivial = at least one mutation; distinct by mutation set and outcome; error-class histogram in evidence",
+        "trusted_base": ["modelled, not verified: JSON decoding, gzip, per-entry validators; panics observed not proved"],
+        "assumptions": ["alternate CAS sources not exercised"],
+        "level_text": "Theorems over every anchor string / CAS content (as decoded): success implies count = anchor count, pairwise distinct "
+                      "suffixes, all files validated and pairwise count-consistent, sizes within limit and limit x factor, URI lengths "
+                      "within limit, proof references present exactly when needed, and every positional access in range; the size, URI "
+                      "and hash-length guards are re-translated from source and proved equal to the model. Partial: absence of Go panics "
+                      "is runtime behaviour, exercised by mutation runs under recover.",
+        "level_note": BATCH_NOTE,
+        "technique": "Coq proof (guards imply safe indexing and well-formed result) + source-regenerated guards + vm_compute "
+                     "correspondence on mutated file sets",
+    },
+    "C15": {
+        "cmd": "c15", "seed": 115, "gentie": 0, "coq_dirs": ["Batch", "Corr/Txn", "Props/C15"],
+        "rule": "sequences of 1-5 transactions (valid, unreadable, malformed anchor, count mismatch, duplicate suffixes in the provider's "
+                "answer, unknown namespace, no protocol version, store Put failure, unpublished-store delete failure) processed both by "
+                "direct TxnProcessor.Process calls and through a started Observer; store content and results compared with the model; "
+                "oracle on the implementation: every stored operation carries its transaction's references, one per suffix per "
+                "transaction; intake: sequences of ProcessOperation with refused requests, unpublished Put failures and writer Add "
+                "failures, queue and unpublished store compared",
+        "trusted_base": ["modelled, not verified: the operation store's Put is atomic (one call); provider outcome per transaction is a fact"],
+        "assumptions": ["unpublished store Delete removes the operation it is given"],
+        "level_text": "Theorems: process_txn leaves the store unchanged or appends exactly the stamped first-per-suffix operations (stamp = "
+                      "time, number, protocol version, canonical and equivalent references); failing transactions contribute nothing and "
+                      "the observer continues; the store only grows; a refused/failed intake leaves queue and unpublished store "
+                      "unchanged. Model tied to TxnProcessor, Observer and DocumentHandler by differential runs with fault injection.",
+        "level_note": BATCH_NOTE,
+        "technique": "Coq proof (store effect, isolation, intake no-trace) + vm_compute correspondence with fault injection + stamp oracle",
+    },
     "C16": {
         "cmd": "c16", "seed": 116, "gentie": 0,
         "coq_dirs": ["Writer", "Corr/Writer", "GenTie/Cutter", "Props/C16"],
